@@ -1,5 +1,311 @@
 import Sentinel.Drv.Common
-/-! Driver for C09 (stub: replaced by the property's real driver) -/
+import Sentinel.Model.Bucket
+import Sentinel.Model.LeapArrayRace
+/-!
+# Driver for C09
+
+Op language (one case = one array, any number of *rounds*):
+
+    la.new <n> <I> <t0>                      fresh BucketLeapArray(n, I) created at clock t0 (ms)
+    view <sc> <Iv>                           the SlidingWindowMetric used by `viewsum` (default: 1 × I)
+    thread <tid> <clock-ms> <op> [; <op>]…   declares thread <tid> (0,1,2,… in order) of the next round; <clock-ms> is the
+                                             clock reading at which it is started (non-decreasing); ops:
+                                             `add <ev> <amt>` | `conc <c>` | `count <ev>` | `viewsum <ev>`
+    sched <tid | tick:<ms>>…                 runs the round: initial advance of every thread (in order, each at its clock),
+                                             the schedule, round-robin drain  => observation
+
+Observation of a round: `[round] res=[<now>:<val>,…|…] pts=[<hook>,…|…] final=[<start>:<c0>:…:<c4>:<minRt>:<maxConc>,…] clock=<ms>`
+(per thread: the clock reading and return value of each operation, the yield points it parked at; the valid buckets at the
+final clock read without refresh).
+
+`model`: the small-step model `Sentinel.LAR` under the same schedule.  `oracle`: judges the implementation's trace.
+-/
 namespace Sentinel.Drv.C09
-def run (_mode : String) : IO Unit := IO.eprintln "C09: driver not implemented"
+open Sentinel.LAR Sentinel.Drv
+open Sentinel.LA (cbs deprecated rangeOf validView)
+
+def evIdx? : String → Option Nat
+  | "pass" => some 0 | "block" => some 1 | "complete" => some 2 | "error" => some 3 | "rt" => some 4 | _ => none
+
+def parseOp? : List String → Option OpSpec
+  | ["add", ev, amt] => do some (.add (← evIdx? ev) (← amt.toNat?))
+  | ["conc", c] => do some (.conc (← c.toNat?))
+  | ["count", ev] => do some (.count (← evIdx? ev))
+  | ["viewsum", ev] => do some (.viewsum (← evIdx? ev))
+  | _ => none
+
+/-- split a token list at `;` -/
+def splitSemi (ts : List String) : List (List String) :=
+  let r := ts.foldl (fun (acc : List (List String) × List String) t =>
+    if t == ";" then (acc.1 ++ [acc.2], []) else (acc.1, acc.2 ++ [t])) ([], [])
+  r.1 ++ [r.2]
+
+def parseProg? (ts : List String) : Option (List OpSpec) := (splitSemi ts).mapM parseOp?
+
+def parseEntry? (t : String) : Option Entry :=
+  if t.startsWith "tick:" then (t.drop 5).toString.toNat?.map Entry.tick else t.toNat?.map Entry.step
+
+structure St where
+  ok : Bool := false
+  sh : Shared := mkShared 1 1 1 1
+  clock : Nat := 0
+  threads : Array (Nat × List OpSpec) := #[]
+  -- oracle side
+  hist : List (Nat × Nat × Nat × Bool × Bool) := []      -- completed adds: (now, ev, amt, sure, wild)
+
+/-! ## model side -/
+
+structure Rec where
+  c : Cfg
+  pts : Array (Array String)
+
+/-- grant one step to thread `i`, recording the yield point it parks at -/
+def stepRec (r : Rec) (i : Nat) : Rec :=
+  match r.c.th[i]? with
+  | none => r
+  | some t =>
+    if t.finished then r else
+    let c' := r.c.exec (.step i)
+    match c'.th[i]? with
+    | some t' =>
+      match t'.cur with
+      | some f => { c := c', pts := r.pts.modify i (·.push f.pc.hook) }
+      | none => { r with c := c' }
+    | none => { r with c := c' }
+
+def drainRec : Nat → Rec → Rec
+  | 0, r => r
+  | fuel + 1, r =>
+    if r.c.allFinished then r
+    else drainRec fuel ((List.range r.c.th.length).foldl stepRec r)
+
+def initRound (sh : Shared) (clock : Nat) (threads : Array (Nat × List OpSpec)) : Rec :=
+  let c0 : Cfg := { sh := sh, clock := clock, th := threads.toList.map fun p => mkThread p.2 }
+  let r0 : Rec := { c := c0, pts := threads.map fun _ => #[] }
+  -- 1. initial advance, in thread order, each at its clock reading
+  (List.range threads.size).foldl (fun r i =>
+    let ck := (threads[i]?.map (·.1)).getD r.c.clock
+    let r := { r with c := r.c.exec (.tick (ck - r.c.clock)) }
+    stepRec r i) r0
+
+def runRound (sh : Shared) (clock : Nat) (threads : Array (Nat × List OpSpec)) (es : List Entry) : Rec :=
+  let r1 := initRound sh clock threads
+  -- 2. the schedule
+  let r2 := es.foldl (fun r e => match e with
+    | .tick d => { r with c := r.c.exec (.tick d) }
+    | .step i => stepRec r i) r1
+  -- 3. drain
+  drainRec 100000 r2
+
+def showVal : Option Nat → String
+  | none => "-" | some v => toString v
+
+def showFinal (sh : Shared) (clock : Nat) : String :=
+  showList ((List.range sh.n).filterMap fun j =>
+    let s := sh.start j
+    if deprecated (sh.n * sh.L) clock s then none
+    else some (s!"{s}:{sh.cnt j 0}:{sh.cnt j 1}:{sh.cnt j 2}:{sh.cnt j 3}:{sh.cnt j 4}:{sh.minRt j}:{sh.maxConc j}"))
+
+def showRound (r : Rec) : String :=
+  let res := "|".intercalate (r.c.th.map fun t => ",".intercalate (t.res.map fun x => s!"{x.now}:{showVal x.val}"))
+  let pts := "|".intercalate (r.pts.toList.map fun p => ",".intercalate p.toList)
+  s!"[round] res=[{res}] pts=[{pts}] final={showFinal r.c.sh r.c.clock} clock={r.c.clock}"
+
+/-! ## oracle side: parsing the implementation's observation -/
+
+def stripBr (s : String) : String :=
+  let s := if s.startsWith "[" then (s.drop 1).toString else s
+  if s.endsWith "]" then (s.dropEnd 1).toString else s
+
+def field? (fs : List String) (name : String) : Option String :=
+  (fs.find? (·.startsWith (name ++ "="))).map fun f => (f.drop (name.length + 1)).toString
+
+def splitNE (s : String) (sep : String) : List String := (s.splitOn sep).filter (· ≠ "")
+
+/-- `res=[999:-,1000:7|1000:3]` → per thread list of (now, value) -/
+def parseRes? (s : String) : Option (List (List (Nat × Option Nat))) :=
+  ((stripBr s).splitOn "|").mapM fun th =>
+    (splitNE th ",").mapM fun x =>
+      match x.splitOn ":" with
+      | [a, b] => do
+          let n ← a.toNat?
+          if b == "-" then some (n, none) else do some (n, some (← b.toNat?))
+      | _ => none
+
+def parseFinal? (s : String) : Option (List (List Nat)) :=
+  (splitNE (stripBr s) ",").mapM fun x => (x.splitOn ":").mapM (·.toNat?)
+
+def sumL (xs : List Nat) : Nat := xs.foldl (· + ·) 0
+
+/-- Judge one round of the implementation's trace.
+
+* **no invention**: a read never exceeds the amounts of the adds (same event) that have *started* before it returned:
+  everything of earlier rounds, the other threads of this round, the reader's own earlier operations;
+* **expired never visible** (`n ≥ 2`, stall condition): … nor the part of them whose bucket is not deprecated at the
+  reader's clock reading (and lies in the view's start range) — above that bound, in a round where a slot reset ran
+  next to another thread, the verdict is `known:stale-counters-visible`;
+* **nothing lost without overlap**: a read is at least the amounts recorded *for sure* (in rounds without a reset next to
+  another thread) in its strict window by operations that had returned before the round / before it in its own thread;
+* **own bucket** (`n ≥ 2`, stall condition): a final bucket never holds more of an event than was recorded with a
+  timestamp inside it, and at least what was recorded for sure.
+
+Stall condition of a round: final clock − smallest clock reading of its operations ≤ one bucket length. -/
+def judge (s : St) (results : List (List (Nat × Option Nat))) (pts : String) (final : List (List Nat)) (fclock : Nat) :
+    String × List (Nat × Nat × Nat × Bool × Bool) :=
+  let n := s.sh.n
+  let L := s.sh.L
+  let I := n * L
+  let progs := s.threads.toList.map (·.2)
+  let wellFormed := progs.length == results.length && (progs.zip results).all fun pr => pr.1.length == pr.2.length
+  if !wellFormed then ("bad results-shape", []) else
+  -- (tid, pos, op, now, val)
+  let ops : List (Nat × Nat × OpSpec × Nat × Option Nat) :=
+    ((List.range progs.length).zip (progs.zip results)).flatMap fun tp =>
+      ((List.range tp.2.1.length).zip (tp.2.1.zip tp.2.2)).map fun x => (tp.1, x.1, x.2.1, x.2.2.1, x.2.2.2)
+  let multi := decide (progs.length > 1)
+  let anyReset := (pts.splitOn "bla.reset.start").length > 1
+  let minNow := ops.foldl (fun m o => min m o.2.2.2.1) fclock
+  let stallOk := decide (fclock - minNow ≤ L) || !multi
+  let overlap := multi && anyReset
+  let sure := !overlap && stallOk && decide (n ≥ 2)
+  -- adds of the round: (tid, pos, now, ev, amt)
+  let roundAdds : List (Nat × Nat × Nat × Nat × Nat) := ops.filterMap fun o => match o.2.2.1 with
+    | .add ev amt => some (o.1, o.2.1, o.2.2.2.1, ev, amt) | _ => none
+  -- adds of a round that broke the stall condition may have been credited to a later bucket: `wild`
+  let wild := !stallOk
+  let newHist := roundAdds.map fun a => (a.2.2.1, a.2.2.2.1, a.2.2.2.2, sure, wild)
+  let allAdds : List (Nat × Nat × Nat × Bool × Bool) := s.hist ++ newHist
+  let readVerdicts : List String := ops.filterMap fun o =>
+    let tid := o.1
+    let pos := o.2.1
+    let now := o.2.2.2.1
+    match o.2.2.1, o.2.2.2.2 with
+    | .count ev, some v | .viewsum ev, some v =>
+      let isView := match o.2.2.1 with | .viewsum _ => true | _ => false
+      let started : List (Nat × Nat × Nat × Bool × Bool) := s.hist ++ roundAdds.filterMap fun a =>
+        if a.1 ≠ tid ∨ a.2.1 < pos then some (a.2.2.1, a.2.2.2.1, a.2.2.2.2, sure, wild) else none
+      let before : List (Nat × Nat × Nat × Bool × Bool) := s.hist ++ roundAdds.filterMap fun a =>
+        if a.1 = tid ∧ a.2.1 < pos then some (a.2.2.1, a.2.2.2.1, a.2.2.2.2, sure, wild) else none
+      let total := sumL (started.filterMap fun a => if a.2.1 = ev then some a.2.2.1 else none)
+      if v > total then some s!"bad invented: read {v} of event {ev} at {now}, only {total} recorded" else
+      if n < 2 then none else
+      let rg := rangeOf L s.sh.Iv now
+      let inWin (b : Nat) (strict : Bool) : Bool :=
+        !deprecated I now b && (!strict || decide (now - b < I)) && (!isView || decide (rg.1 ≤ b ∧ b ≤ rg.2))
+      let upper := sumL (started.filterMap fun a => if a.2.1 = ev && (a.2.2.2.2 || inWin (cbs L a.1) false) then some a.2.2.1 else none)
+      let lower := sumL (before.filterMap fun a => if a.2.1 = ev && a.2.2.2.1 && inWin (cbs L a.1) true then some a.2.2.1 else none)
+      if v > upper then
+        if !stallOk then none
+        else if overlap then some "known:stale-counters-visible"
+        else some s!"bad expired-visible: read {v} of event {ev} at {now}, only {upper} recorded in its window"
+      else if v < lower && !overlap && stallOk then
+        some s!"bad lost: read {v} of event {ev} at {now}, at least {lower} recorded in its window before"
+      else none
+    | _, _ => none
+  let finalVerdicts : List String := final.flatMap fun b =>
+    match b with
+    | st :: cs =>
+      (List.range 5).filterMap fun ev =>
+        let c := cs.getD ev 0
+        let own := sumL (allAdds.filterMap fun a => if a.2.1 = ev && (a.2.2.2.2 || cbs L a.1 = st) then some a.2.2.1 else none)
+        let ownSure := sumL (allAdds.filterMap fun a => if a.2.1 = ev && cbs L a.1 = st && a.2.2.2.1 then some a.2.2.1 else none)
+        if n < 2 then none
+        else if !stallOk then none
+        else if c > own then some s!"bad foreign-credit: bucket {st} holds {c} of event {ev}, only {own} recorded with a timestamp in it"
+        else if c < ownSure then some s!"bad lost: bucket {st} holds {c} of event {ev}, {ownSure} recorded without overlap"
+        else none
+    | [] => []
+  let vs := readVerdicts ++ finalVerdicts
+  let bad := vs.find? (·.startsWith "bad")
+  let verdict := match bad with
+    | some b => b
+    | none => if vs.any (·.startsWith "known:") then "known:stale-counters-visible" else "ok"
+  (verdict, newHist)
+
+/-! ## the step function of both modes -/
+
+def step (oracle : Bool) (s : St) (ts : List String) (line : String) : St × Option String :=
+  match ts with
+  | ["la.new", n, I, t] => match n.toNat?, I.toNat?, t.toNat? with
+      | some n, some I, some t =>
+        if n = 0 ∨ I % n ≠ 0 ∨ I / n = 0 ∨ t = 0 then (s, some "bad-op") else
+        ({ ok := true, sh := mkShared n (I / n) I t, clock := t }, none)
+      | _, _, _ => (s, some "bad-op")
+  | ["view", sc, Iv] => match sc.toNat?, Iv.toNat? with
+      | some sc, some Iv =>
+        if !s.ok then (s, some "bad-op") else
+        let c := validView sc Iv s.sh.n (s.sh.n * s.sh.L)
+        if oracle then ({ s with sh := if (resPart line) == some "ok" then { s.sh with Iv := Iv } else s.sh }, none)
+        else if c = 0 then ({ s with sh := { s.sh with Iv := Iv } }, some "ok") else (s, some s!"err {c}")
+      | _, _ => (s, some "bad-op")
+  | "thread" :: tid :: ck :: rest => match tid.toNat?, ck.toNat?, parseProg? rest with
+      | some tid, some ck, some prog =>
+        let last := (s.threads.back?.map (·.1)).getD s.clock
+        if !s.ok ∨ tid ≠ s.threads.size ∨ ck < last then (s, some "bad-op")
+        else ({ s with threads := s.threads.push (ck, prog) }, none)
+      | _, _, _ => (s, some "bad-op")
+  | "sched" :: es => match es.mapM parseEntry? with
+      | none => (s, some "bad-op")
+      | some es =>
+        if !s.ok ∨ s.threads.size = 0 then (s, some "bad-op") else
+        if oracle then
+          match resPart line with
+          | none => ({ s with threads := #[] }, some "?")
+          | some r =>
+            let fs := toks r
+            match (field? fs "res").bind parseRes?, field? fs "pts", (field? fs "final").bind parseFinal?,
+                  (field? fs "clock").bind (·.toNat?) with
+            | some res, some pts, some fin, some ck =>
+              let (v, nh) := judge s res pts fin ck
+              ({ s with threads := #[], clock := ck, hist := s.hist ++ nh }, some v)
+            | _, _, _, _ => ({ s with threads := #[] }, some ("bad unparsable " ++ r))
+        else
+          let r := runRound s.sh s.clock s.threads es
+          ({ s with sh := r.c.sh, clock := r.c.clock, threads := #[] }, some (showRound r))
+  | "stress" :: _ =>
+      -- randomized parallel stress on the real scheduler (implementation only): the model has nothing to add
+      if oracle then
+        match resPart line with
+        | some "ok" => (s, some "ok")
+        | some r => (s, some (if r.startsWith "bad" then r else "bad stress " ++ r))
+        | none => (s, some "?")
+      else (s, some "ok")
+  | _ => (s, some "bad-op")
+
+/-! ## schedule enumeration (mode `enum`): all complete interleavings of the declared round, depth-first on the model.
+A schedule longer than `depth` is cut there (the rest is the drain); enumeration stops after `limit` schedules. -/
+
+partial def dfs (limit depth : Nat) (c : Cfg) (pref : List Nat) (acc : Array String × Bool) : Array String × Bool :=
+  if acc.1.size ≥ limit then (acc.1, true) else
+  let alive := (List.range c.th.length).filter fun i => match c.th[i]? with | some t => !t.finished | none => false
+  if alive.isEmpty || pref.length ≥ depth then
+    (acc.1.push (" ".intercalate (pref.reverse.map toString)), acc.2)
+  else alive.foldl (fun acc i => dfs limit depth (c.exec (.step i)) (i :: pref) acc) acc
+
+partial def enumLoop : IO Unit := do
+  let stdin ← IO.getStdin
+  let stdout ← IO.getStdout
+  let rec go (st : St) (cid : String) : IO Unit := do
+    let line ← stdin.getLine
+    if line.isEmpty then return ()
+    let op := opPart line
+    match toks op with
+    | ["case", id] => go ({} : St) id
+    | ["enum", d, l] =>
+      match d.toNat?, l.toNat? with
+      | some d, some l =>
+        let r := initRound st.sh st.clock st.threads
+        let (xs, trunc) := dfs l d r.c [] (#[], false)
+        stdout.putStrLn s!"# {cid} {xs.size} {if trunc then "truncated" else "complete"}"
+        for x in xs do stdout.putStrLn s!"{cid} sched {x}"
+        go { st with threads := #[] } cid
+      | _, _ => go st cid
+    | [] => go st cid
+    | ts => go (step false st ts line).1 cid
+  go ({} : St) "x"
+  stdout.flush
+
+def run (mode : String) : IO Unit :=
+  if mode == "enum" then enumLoop else loop ({} : St) (step (mode == "oracle"))
+
 end Sentinel.Drv.C09
